@@ -10,6 +10,7 @@
  *   new <id> <kind>[!] <arg> <where>   kind P(arg=1|2|4|8 slots) M(probe with its own Mark instance, 4 slots) R B(arg=target id)
  *                                  A L (Array/List of Ref) T U (Table Int->Ref / Ref->Ref) E F (Tree Int->Ref / Ref->Ref) H (heap Tuple);
  *                                  `!` = root-registered (new_root/alloc_root); where = `-` or `s<j>` (stack root slot j)
+ *   pair <ida> <idb> <where>       two Refs allocated back to back, b -> a; a lives only in a C local while b is allocated
  *   store <id> <slot> <tok>        word store into P/M/R.  tok: o<id> pointer | n NULL | m<id> pointer+4 | i<id> pointer+8 | lo | hi | s<k> small integer
  *   push <id> <tok> | pop <id> <idx> | aset <id> <idx> <tok>      A L H   (tok: o<id>, for A/L also n)
  *   tset <id> <key> <tok> | trem <id> <key>                       T E (integer key)  U F (key = object id)
@@ -21,6 +22,7 @@
  *   collect                        full: GC_Mark + GC_Sweep
  *   churn <n>                      full: allocate n unreferenced objects (drives the threshold)
  *   deepchild <n> <kind>           forked child: chain of n, forced collection; records the outcome (F27 witness)
+ *   danglechild H|M                forked child: del(x) while a heap Tuple / user Mark instance holds x, then mark it (known finding)
  *
  * Direct oracle (independent of the Lean model): shadow graph + BFS; a probe finalised while shadow-reachable, a
  * reachable object missing from the registry, or a changed canary/content is an X line.
@@ -29,6 +31,7 @@
 #include <sys/mman.h>
 #include <signal.h>
 #include <sys/resource.h>
+#include <fcntl.h>
 
 #define MAXOBJ (1 << 17)
 #define NROOTS 64
@@ -51,6 +54,7 @@ typedef struct {
 static Sh* sh;                       /* shadow graph */
 static uintptr_t* hid;               /* masked addresses */
 static unsigned char* reach;         /* last BFS */
+static unsigned char* ghost;         /* full mode: pointed to by a Tuple / ProbeM that became garbage and may not have been swept yet */
 static int* fin;                     /* finalisation ledger (probes) */
 static int maxid = -1;
 static int mode_full = 0;
@@ -275,10 +279,19 @@ static void shadow_new(long id, int kind, int k, int rootflag) {
   n_objs++;
 }
 
+/* A garbage Tuple (or user Mark instance) hands its stored pointers to the callback if a stale stack word still finds
+   it; an explicit del of one of those targets would leave it a dangling pointer (known finding KF-C01-dangling-tuple-item):
+   such targets may not be deleted by hand any more. */
+static void note_garbage(int i) {
+  Sh* o = &sh[i];
+  if (o->kind != K_H && o->kind != K_M) return;
+  for (int j = 0; j < o->n; j++) if (o->el[j].t == T_OBJ && o->el[j].v >= 0 && o->el[j].v < MAXOBJ) ghost[o->el[j].v] = 1;
+}
+
 /* full mode: reachability checkpoint — whatever is not reachable now must never be used again */
 static void checkpoint_dead(void) {
   shadow_reach(NULL, 0, 1);
-  for (int i = 0; i <= maxid; i++) if (sh[i].used && sh[i].alive && !reach[i]) sh[i].alive = 0;
+  for (int i = 0; i <= maxid; i++) if (sh[i].used && sh[i].alive && !reach[i]) { sh[i].alive = 0; note_garbage(i); }
 }
 
 static __attribute__((noinline)) void do_new(long id, int kind, int k, int rootflag, long boxtgt, int slot) {
@@ -294,6 +307,30 @@ static __attribute__((noinline)) void do_new(long id, int kind, int k, int rootf
   pin();
   if (mode_full) {
     if (G()->mitems != mit0 || G()->nitems != nit0 + 1) { n_collect_auto++; reach[id] = 0; oracle_survivors("collection triggered by new"); }
+    checkpoint_dead();
+  }
+}
+
+/* two allocations in one C function: the first object lives only in a local variable (a register or a spill slot) while
+   the second allocation may trigger a collection — the "stack or registers" root kind */
+static __attribute__((noinline)) void do_pair(long ia, long ib, int slot) {
+  struct GC* gc = G();
+  size_t mit0 = gc->mitems, nit0 = gc->nitems;
+  if (mode_full) shadow_reach(NULL, 0, 1);
+  var a = alloc(Ref);
+  pin();
+  var b = alloc(Ref);
+  ((struct Ref*)b)->val = a;
+  if (slot >= 0) g_roots[slot] = b;
+  setP((int)ia, a); setP((int)ib, b);
+  shadow_new(ia, K_R, 1, 0); shadow_new(ib, K_R, 1, 0);
+  sh[ib].el[0].t = T_OBJ; sh[ib].el[0].v = ia;
+  if (slot >= 0) { root_tok[slot].t = T_OBJ; root_tok[slot].v = ib; }
+  pin();
+  if (mode_full) {
+    if (G()->mitems != mit0 || G()->nitems != nit0 + 2) { n_collect_auto++; reach[ia] = 0; reach[ib] = 0; oracle_survivors("collection triggered by pair"); }
+    if (!GC_Mem_Ptr(G(), a) || !GC_Mem_Ptr(G(), b))
+      X("sig=gc-reclaimed-reachable line=%zu what=an object held only in a local variable of the allocating function was swept", curline);
     checkpoint_dead();
   }
 }
@@ -417,7 +454,7 @@ static __attribute__((noinline)) void do_collect(void) {
   n_collect_forced++;
   oracle_survivors("forced collection");
   size_t freed = 0;
-  for (int i = 0; i <= maxid; i++) if (sh[i].used && sh[i].alive && !reach[i]) { sh[i].alive = 0; if ((sh[i].kind == K_P || sh[i].kind == K_M) ? fin[i] > 0 : !GC_Mem_Ptr(G(), P(i))) freed++; }
+  for (int i = 0; i <= maxid; i++) if (sh[i].used && sh[i].alive && !reach[i]) { sh[i].alive = 0; note_garbage(i); if ((sh[i].kind == K_P || sh[i].kind == K_M) ? fin[i] > 0 : !GC_Mem_Ptr(G(), P(i))) freed++; }
   n_freed_total += freed;
   O("c live=%s", set_text(reach, 1));
   I("collect line=%zu unreachable-freed=%zu registered=%zu", curline, freed, G()->nitems);
@@ -472,6 +509,33 @@ static void deep_child(long n, int kind) {
   }
 }
 
+/* known finding KF-C01-dangling-tuple-item, in a forked child: del(x) while a heap Tuple / user Mark instance still holds x */
+static void dangle_child(int kind) {
+  fflush(stdout);
+  pid_t pid = fork();
+  if (pid == 0) {
+    alarm(30);
+    exiting = 1;
+    int devnull = open("/dev/null", 1); if (devnull >= 0) dup2(devnull, 2);
+    struct GC* gc = G(); gc->mitems = ((size_t)1) << 60;
+    var x = alloc(Ref);
+    var t;
+    if (kind == K_H) t = new(Tuple, x); else { t = alloc(ProbeM); ((struct ProbeM*)t)->slot[1] = x; }
+    gc->mitems = ((size_t)1) << 60;
+    del(x);
+    gc->mitems = ((size_t)1) << 60;
+    GC_Mark_Item(gc, t);            /* what the stack scan does with a (possibly stale) word that points at t */
+    _exit(0);
+  }
+  int st = 0; waitpid(pid, &st, 0);
+  if (WIFEXITED(st) && WEXITSTATUS(st) == 0) I("dangle outcome=ok");
+  else {
+    I("dangle outcome=%s%d", WIFSIGNALED(st) ? "signal" : "exit", WIFSIGNALED(st) ? WTERMSIG(st) : WEXITSTATUS(st));
+    X("sig=gc-dangling-tuple-item line=%zu what=marking a %s that holds a pointer to an explicitly deleted object read freed memory (%s %d)",
+      curline, kind == K_H ? "heap Tuple" : "user Mark instance", WIFSIGNALED(st) ? "signal" : "exit status", WIFSIGNALED(st) ? WTERMSIG(st) : WEXITSTATUS(st));
+  }
+}
+
 #define BAD do { O("bad-op"); goto next; } while (0)
 
 int main(int argc, char** argv) {
@@ -480,7 +544,7 @@ int main(int argc, char** argv) {
   volatile var roots[NROOTS];
   for (int i = 0; i < NROOTS; i++) roots[i] = NULL;
   g_roots = roots;
-  sh = calloc(MAXOBJ, sizeof(Sh)); hid = calloc(MAXOBJ, sizeof(uintptr_t)); reach = calloc(MAXOBJ + 2, 1);
+  sh = calloc(MAXOBJ, sizeof(Sh)); hid = calloc(MAXOBJ, sizeof(uintptr_t)); reach = calloc(MAXOBJ + 2, 1); ghost = calloc(MAXOBJ, 1);
   fin = calloc(MAXOBJ, sizeof(int)); bfs_q = calloc(MAXOBJ, sizeof(int));
   size_t n; char** lines = v_read_lines(argv[1], &n);
   (void)current(Thread);
@@ -509,10 +573,18 @@ int main(int argc, char** argv) {
       if (!parse_where(w[4], &slot)) BAD;
       int k = 0;
       if (kind == K_P) { if (!parse_long(w[3], &arg) || !(arg == 1 || arg == 2 || arg == 4 || arg == 8)) BAD; k = (int)arg; }
-      else if (kind == K_B) { if (!parse_long(w[3], &arg) || !usable(arg) || owned(arg) || sh[arg].kind == K_B || sh[arg].rootflag || has_incoming_x((int)arg, slot)) BAD; k = 1; }
+      else if (kind == K_B) { if (!parse_long(w[3], &arg) || !usable(arg) || owned(arg) || ghost[arg] || sh[arg].kind == K_B || sh[arg].rootflag || has_incoming_x((int)arg, slot)) BAD; k = 1; }
       else { if (strcmp(w[3], "-")) BAD; k = kind == K_M ? 4 : kind == K_R ? 1 : 0; }
       do_new(id, kind, k, rf, arg, slot);
       if (mode_full) O("new %ld live=%s", id, set_text(reach, 1)); else O("new %ld", id);
+    } else if (!strcmp(w[0], "pair")) {
+      started = 1;
+      long ia, ib; int slot;
+      if (nw != 4 || !parse_long(w[1], &ia) || !parse_long(w[2], &ib) || ia < 0 || ib < 0 || ia >= MAXOBJ || ib >= MAXOBJ || ia == ib
+          || sh[ia].used || sh[ib].used || !parse_where(w[3], &slot)) BAD;
+      if (mode_full && slot < 0) BAD;
+      do_pair(ia, ib, slot);
+      if (mode_full) O("pair %ld %ld live=%s", ia, ib, set_text(reach, 1)); else O("pair %ld %ld", ia, ib);
     } else if (!strcmp(w[0], "store")) {
       long id, slot; Tok t;
       if (nw != 4 || !parse_long(w[1], &id) || !usable(id) || !parse_long(w[2], &slot) || !parse_tok(w[3], &t) || !tok_ok(t)) BAD;
@@ -563,7 +635,7 @@ int main(int argc, char** argv) {
       roots[j] = tok_word(t); root_tok[j] = t; O("ok");
     } else if (!strcmp(w[0], "del")) {
       long id;
-      if (nw != 2 || !parse_long(w[1], &id) || !usable(id) || has_incoming((int)id)) BAD;
+      if (nw != 2 || !parse_long(w[1], &id) || !usable(id) || has_incoming((int)id) || ghost[id]) BAD;
       if (sh[id].kind == K_B && sh[id].el[0].t == T_OBJ && usable(sh[id].el[0].v) && sh[sh[id].el[0].v].kind == K_B) BAD;
       del_count = 0; shadow_del((int)id);
       del(P((int)id)); pin();
@@ -607,6 +679,10 @@ int main(int argc, char** argv) {
       int kind = chain_kind(w[2]); if (!(kind == K_R || kind == K_P || kind == K_A || kind == K_H)) BAD;
       deep_child(cn, kind);
       O("deepchild %ld", cn);
+    } else if (!strcmp(w[0], "danglechild")) {
+      if (nw != 2 || !(!strcmp(w[1], "H") || !strcmp(w[1], "M"))) BAD;
+      dangle_child(!strcmp(w[1], "H") ? K_H : K_M);
+      O("danglechild %s", w[1]);
     } else BAD;
     next: ;
   }
